@@ -105,7 +105,7 @@ def scenario_xml(sc, observer=True):
     mods += [list(m) for m in sc.get("modules", [])]
     if observer:
         mods.append(["VerifObserver", {"nameOutputFile": "obs.txt"}])
-    bc = [list(b) for b in sc.get("boundary_children", [])]
+    bc = [list(b) for b in sc.get("boundary_children", [["ReflectorMirror", {}]])]   # sympler insists on a reflector, also in periodic boxes
     if sc.get("particles"):
         bc.append(["ParticleCreatorFile", {"nameInputFile": "particles.pos"}])
     for i, con in enumerate(sc.get("connectors", [])):
